@@ -1335,20 +1335,51 @@ func digestMatchEdge(p *Program, from *ssa.BasicBlock, si int) (ssa.Instruction,
 func checkRandomFillCoversWholeBuffer(c *Ctx, rule string) {
 	p := c.P
 	n := 0
+	whole := func(v ssa.Value) bool {
+		switch x := stripConv(v).(type) {
+		case *ssa.Slice:
+			return x.Low == nil && x.High == nil && x.Max == nil
+		case *ssa.Parameter:
+			return true
+		}
+		return false
+	}
+	// fillers: functions of the package that hand one of their own parameters to io.ReadFull as the buffer; their call
+	// sites are fill sites too
+	fillers := map[*ssa.Function]int{}
 	for _, fn := range p.FuncsIn("snacl") {
 		for _, call := range callsNamed(fn, "ReadFull") {
 			if len(call.Call.Args) != 2 {
 				continue
 			}
-			n++
-			ok := false
-			switch x := stripConv(call.Call.Args[1]).(type) {
-			case *ssa.Slice:
-				ok = x.Low == nil && x.High == nil && x.Max == nil
-			case *ssa.Parameter:
-				ok = true
+			if prm, ok := stripConv(call.Call.Args[1]).(*ssa.Parameter); ok {
+				for i, q := range fn.Params {
+					if q == prm {
+						fillers[fn] = i
+					}
+				}
 			}
-			c.Check(rule, "random-fill-covers-whole-buffer:"+fn.Name(), call.Pos(), ok,
+		}
+	}
+	for _, fn := range p.FuncsIn("snacl") {
+		for _, ci := range callsOf(fn) {
+			call, isCall := ci.(*ssa.Call)
+			if !isCall {
+				continue
+			}
+			var buf ssa.Value
+			if calleeShort(&call.Call) == "ReadFull" && len(call.Call.Args) == 2 {
+				buf = call.Call.Args[1]
+			} else if h := call.Call.StaticCallee(); h != nil {
+				if i, isFiller := fillers[h]; isFiller && i < len(call.Call.Args) {
+					buf = call.Call.Args[i]
+				}
+			}
+			if buf == nil {
+				continue
+			}
+			n++
+			c.Check(rule, "random-fill-covers-whole-buffer:"+fn.Name(), call.Pos(), whole(buf),
 				fnName(fn)+" reads random bytes into a part of its buffer only (a re-sliced array): the rest — possibly all of it — stays zero")
 		}
 	}
